@@ -399,6 +399,11 @@ def run_pure(desc, M):
             str(BIFWriter(m))
             XMLBIFWriter(m).__str__()
             UAIWriter(m).__str__()
+            # asking a writer object for its text twice gives the same text
+            for W_ in (BIFWriter, XMLBIFWriter, UAIWriter):
+                w_ = W_(m)
+                t1, t2 = w_.__str__(), w_.__str__()
+                M.check(t1 == t2, "a writer returns the same text when asked twice", detail=f"{W_.__name__}: {len(t1)} vs {len(t2)} characters")
         elif kind == "sampling":
             from pgmpy.sampling import BayesianModelSampling
             s = BayesianModelSampling(m)
